@@ -26,14 +26,15 @@ import (
 	"os"
 	"os/exec"
 	"path/filepath"
+	"runtime"
 	"runtime/pprof"
 	"sort"
 	"strconv"
 	"strings"
+	gosync "sync"
 
 	"github.com/tucats/ego/internal/caches"
 	"github.com/tucats/ego/internal/server/cluster"
-	"github.com/tucats/ego/internal/verifrt/enum"
 	"github.com/tucats/ego/internal/verifrt/report"
 	"github.com/tucats/ego/internal/verifrt/seqx"
 	"github.com/tucats/ego/internal/verifrt/vsched"
@@ -451,6 +452,12 @@ func sortedSet(m map[int]bool) []int {
 	return out
 }
 
+// found is a state reached by a level worker.
+type found struct {
+	H []Ev   `json:"h"`
+	K string `json:"k"`
+}
+
 type witness struct {
 	Nodes   int    `json:"nodes"`
 	History []Ev   `json:"history"`
@@ -467,12 +474,15 @@ func histText(h []Ev) string {
 }
 
 // explore runs the BFS for one cluster size below the given roots.
-func explore(r *report.R, n, depth int, roots [][]Ev, onFrontier func([][]Ev)) seqx.Stats {
+func explore(r *report.R, n, depth int, roots [][]Ev, onFrontier func([][]Ev), reached func(h []Ev, key string)) seqx.Stats {
 	if roots != nil && len(roots) == 0 {
 		return seqx.Stats{}
 	}
 
-	var hist []Ev
+	var (
+		hist    []Ev
+		stepped bool // the history's newest event has just been applied (not a re-execution of a root)
+	)
 
 	return seqx.Run(seqx.Spec[Ev]{
 		Events: alphabet(n, r.Thorough()), MaxDepth: depth, StopAtViolation: true, Roots: roots, Frontier: onFrontier,
@@ -482,17 +492,20 @@ func explore(r *report.R, n, depth int, roots [][]Ev, onFrontier func([][]Ev)) s
 				w.drain()
 			})
 			if out.Panic != nil || out.Deadlock || out.Horizon {
-				r.Violation("crash", len(hist), map[string]any{"nodes": n, "history": hist, "text": histText(hist), "panic": out.Panic, "deadlock": out.Deadlock, "horizon": out.Horizon, "blocked": out.BlockedOn, "stack": out.PanicStk},
+				h := append([]Ev(nil), hist...)
+				r.Violation("crash", len(h), map[string]any{"nodes": n, "history": h, "text": histText(h), "panic": out.Panic, "deadlock": out.Deadlock, "horizon": out.Horizon, "blocked": out.BlockedOn, "stack": out.PanicStk, "pid": os.Getpid(), "args": os.Args[1:], "trace": out.Describe()},
 					"a history crashed, deadlocked or did not end")
 			}
 		},
 		Fresh: func() {
 			w.freshHistory()
 			hist = hist[:0]
+			stepped = false
 		},
 		Enabled: func(e Ev) bool { return w.enabled(e) },
 		Step: func(e Ev, last bool) (string, string) {
 			hist = append(hist, e)
+			stepped = last
 			r.Eval(1)
 
 			return w.step(e, func(cell, msg string) {
@@ -506,6 +519,10 @@ func explore(r *report.R, n, depth int, roots [][]Ev, onFrontier func([][]Ev)) s
 			k := fmt.Sprintf("n%d|%s|%s", n, w.m.key(), w.implKey())
 			r.Distinct(k)
 
+			if reached != nil && (stepped || len(hist) == 0) {
+				reached(hist, k)
+			}
+
 			return k
 		},
 		Violation: func(h []Ev, cell, msg string) {
@@ -517,7 +534,7 @@ func explore(r *report.R, n, depth int, roots [][]Ev, onFrontier func([][]Ev)) s
 // depthFor gives the history depth per cluster size and tier.
 func depthFor(r *report.R, n int) int {
 	quick := map[int]int{1: 7, 2: 5, 3: 4, 4: 3, 5: 3}
-	thorough := map[int]int{1: 9, 2: 6, 3: 5, 4: 4, 5: 4}
+	thorough := map[int]int{1: 9, 2: 7, 3: 5, 4: 4, 5: 4}
 
 	return r.Pick(quick[n], thorough[n])
 }
@@ -589,8 +606,10 @@ func main() {
 		r.Finish()
 	}
 
-	// worker: explore below a set of roots for one cluster size
-	if len(os.Args) > 4 && os.Args[1] == "shard" {
+	// worker: one BFS level below a part of the frontier of one cluster size;
+	// it reports every state it reaches (history + canonical key), the parent
+	// deduplicates across workers
+	if len(os.Args) > 5 && os.Args[1] == "level" {
 		n, _ := strconv.Atoi(os.Args[2])
 
 		var roots [][]Ev
@@ -605,25 +624,46 @@ func main() {
 		if pf := os.Getenv("VERIF_C29_PROF"); pf != "" {
 			f, _ := os.Create(fmt.Sprintf("%s.%d", pf, os.Getpid()))
 			_ = pprof.StartCPUProfile(f)
-
-			defer pprof.StopCPUProfile()
 		}
 
-		st := explore(r, n, depthFor(r, n)-splitDepth, roots, nil)
+		var (
+			out   []found
+			local = map[string]bool{}
+		)
+
+		st := explore(r, n, 1, roots, nil, func(h []Ev, k string) {
+			if len(h) > 0 && !local[k] {
+				local[k] = true
+				out = append(out, found{append([]Ev(nil), h...), k})
+			}
+		})
+
 		pprof.StopCPUProfile()
+
+		fb, _ := json.Marshal(out)
+		if err := os.WriteFile(os.Args[5], fb, 0o644); err != nil {
+			report.Fatal("worker: %v", err)
+		}
+
 		r.Add("transitions", int64(st.Transitions))
 		r.Add(fmt.Sprintf("transitions_n%d", n), int64(st.Transitions))
 		saveCov(r)
 		r.SavePartial(os.Args[4])
 	}
 
-	// parent: the first levels of every cluster size, then the frontiers are dealt to workers
-	type job struct {
-		n     int
-		roots [][]Ev
+	// parent: the first levels of every cluster size in this process, then
+	// level by level with worker processes; the parent owns the set of seen states
+	type sizeRun struct {
+		n        int
+		depth    int
+		frontier [][]Ev
+		seen     map[string]bool
+		parts    []string // partial reports in deterministic order
+		perDepth []int
+		err      string
 	}
 
-	var jobs []job
+	var runs []*sizeRun
 
 	perSize := map[string]any{}
 
@@ -636,39 +676,21 @@ func main() {
 		}
 
 		w = newWorld(n)
-		depth := depthFor(r, n)
 
-		top := depth
+		sr := &sizeRun{n: n, depth: depthFor(r, n), seen: map[string]bool{}}
+
+		top := sr.depth
 		if top > splitDepth {
 			top = splitDepth
 		}
 
-		var frontier [][]Ev
-
-		st := explore(r, n, top, nil, func(h [][]Ev) { frontier = h })
+		st := explore(r, n, top, nil, func(h [][]Ev) { sr.frontier = h }, func(_ []Ev, k string) { sr.seen[k] = true })
 		r.Add("transitions", int64(st.Transitions))
 		r.Add(fmt.Sprintf("transitions_n%d", n), int64(st.Transitions))
 		saveCov(r)
 
-		perSize[fmt.Sprintf("n%d", n)] = map[string]any{"depth": depth, "alphabet": len(alphabet(n, r.Thorough()))}
-
-		if depth > splitDepth && len(frontier) > 0 {
-			shards := map[int]int{1: 1, 2: 4, 3: 6, 4: 4, 5: 6}[n]
-			if r.Thorough() {
-				shards = map[int]int{1: 1, 2: 8, 3: 12, 4: 16, 5: 12}[n]
-			}
-
-			parts := make([][][]Ev, shards)
-			for i, h := range frontier {
-				parts[i%shards] = append(parts[i%shards], h)
-			}
-
-			for _, p := range parts {
-				if len(p) > 0 {
-					jobs = append(jobs, job{n, p})
-				}
-			}
-		}
+		sr.perDepth = st.PerDepth
+		runs = append(runs, sr)
 
 		if n == 2 {
 			evs := alphabet(n, r.Thorough())
@@ -676,32 +698,113 @@ func main() {
 		}
 	}
 
-	type res struct {
-		path string
-		err  error
-		out  []byte
+	slots := make(chan struct{}, runtime.NumCPU())
+
+	var wg gosync.WaitGroup
+
+	for _, sr := range runs {
+		sr := sr
+
+		wg.Add(1)
+
+		go func() {
+			defer wg.Done()
+
+			for level := splitDepth + 1; level <= sr.depth && len(sr.frontier) > 0; level++ {
+				// about 150 states per worker, at most 16 workers
+				shards := (len(sr.frontier) + 149) / 150
+				if shards > 16 {
+					shards = 16
+				}
+
+				parts := make([][][]Ev, shards)
+				for i, h := range sr.frontier {
+					parts[i%shards] = append(parts[i%shards], h)
+				}
+
+				type res struct {
+					part, found string
+					err         error
+					out         []byte
+				}
+
+				results := make([]res, shards)
+
+				var lw gosync.WaitGroup
+
+				for i := range parts {
+					i := i
+
+					lw.Add(1)
+
+					go func() {
+						defer lw.Done()
+
+						slots <- struct{}{}
+
+						defer func() { <-slots }()
+
+						base := filepath.Join(os.Getenv("VERIF_SCRATCH"), fmt.Sprintf("n%d-l%d-%d", sr.n, level, i))
+						b, _ := json.Marshal(parts[i])
+						_ = os.WriteFile(base+".roots", b, 0o644)
+
+						cmd := exec.Command(os.Args[0], "level", strconv.Itoa(sr.n), base+".roots", base+".part", base+".found")
+						cmd.Env = append(os.Environ(), "GOMAXPROCS="+envOr("VERIF_C29_PROCS", "2"), "GOGC="+envOr("VERIF_C29_GOGC", "400"))
+						out, err := cmd.CombinedOutput()
+						results[i] = res{base + ".part", base + ".found", err, out}
+					}()
+				}
+
+				lw.Wait()
+
+				var next [][]Ev
+
+				for i, rs := range results {
+					if rs.err != nil {
+						sr.err = fmt.Sprintf("worker n=%d level=%d part=%d failed: %v\n%s", sr.n, level, i, rs.err, rs.out)
+
+						return
+					}
+
+					sr.parts = append(sr.parts, rs.part)
+
+					var fs []found
+
+					b, err := os.ReadFile(rs.found)
+					if err != nil || json.Unmarshal(b, &fs) != nil {
+						sr.err = fmt.Sprintf("worker n=%d level=%d part=%d: unreadable result", sr.n, level, i)
+
+						return
+					}
+
+					for _, f := range fs {
+						if !sr.seen[f.K] {
+							sr.seen[f.K] = true
+							next = append(next, f.H)
+						}
+					}
+
+					_ = os.Remove(rs.found)
+				}
+
+				sr.frontier = next
+				sr.perDepth = append(sr.perDepth, len(next))
+			}
+		}()
 	}
 
-	results := make([]res, len(jobs))
+	wg.Wait()
 
-	enum.Par(len(jobs), func(i int) {
-		rp := filepath.Join(os.Getenv("VERIF_SCRATCH"), fmt.Sprintf("roots-%d.json", i))
-		pp := filepath.Join(os.Getenv("VERIF_SCRATCH"), fmt.Sprintf("part-%d.json", i))
-		b, _ := json.Marshal(jobs[i].roots)
-		_ = os.WriteFile(rp, b, 0o644)
-
-		cmd := exec.Command(os.Args[0], "shard", strconv.Itoa(jobs[i].n), rp, pp)
-		cmd.Env = append(os.Environ(), "GOMAXPROCS="+envOr("VERIF_C29_PROCS", "2"), "GOGC="+envOr("VERIF_C29_GOGC", "400"))
-		out, err := cmd.CombinedOutput()
-		results[i] = res{pp, err, out}
-	})
-
-	for i, rs := range results {
-		if rs.err != nil {
-			report.Fatal("worker %d (n=%d) failed: %v\n%s", i, jobs[i].n, rs.err, rs.out)
+	for _, sr := range runs {
+		if sr.err != "" {
+			report.Fatal("%s", sr.err)
 		}
 
-		r.MergePartial(rs.path)
+		for _, p := range sr.parts {
+			r.MergePartial(p)
+		}
+
+		perSize[fmt.Sprintf("n%d", sr.n)] = map[string]any{"depth": sr.depth, "alphabet": len(alphabet(sr.n, r.Thorough())), "states": len(sr.seen), "new_states_per_depth": sr.perDepth}
 	}
 
 	trans := r.IntCov("transitions")
